@@ -866,9 +866,15 @@ def main():
         "numpy.linalg.eigh / inv are oracles: the transformation matrices of the run are handed to the model as data (orthogonality monitored, 1e-10)",
         "float arithmetic of the few operations per population is compared with exact rational arithmetic within 1e-12 (populations) / 1e-10 (matrix elements)",
         "temperatures: 0 and 1e-6 .. 1e4 K (kB*T must not itself underflow)",
-        "strong coupling needs a bath (reorganisation energies); aggregates without system-bath interaction are not generated"]
+        "strong coupling needs a bath (reorganisation energies); aggregates without system-bath interaction are not generated",
+        "static tie: _thermal_population, get_DensityMatrix (selection logic), _impulsive_population and get_thermal_ReducedDensityMatrix are "
+        "matched statement by statement against templates and their arithmetic content is translated (harness/translate_c14.py, skeleton "
+        "lemmas in Proofs/C14gen.v); numpy.sum / argmin / amin / diag are read as qsum / first index of the minimum / minimum / diagonal "
+        "matrix; the translator is trusted to read the ast faithfully"]
     chk.notes = ["Boltzmann-ratio monitor tolerance: 1e-9 relative + 8e-16*|E|max/kT (conditioning of the subtraction of large energies)"]
     chk.prove()
+    import translate
+    translate.static_tie(cm, chk, PID, cm.REPO)      # second, static tie: model regenerated from the current source
     if args.replay:
         rep = json.load(open(args.replay))
         cases = [rep["input"]] if isinstance(rep.get("input"), dict) and "kind" in rep["input"] else []
